@@ -223,7 +223,7 @@ def link(funcs, addr, entry="main", order=None):
                 local[l["name"]] = len(code) + 1
             elif k == "i":
                 syn, val, lab = parse_operand(l["mn"], l["op"], addr)
-                code.append({"op": l["mn"], "syn": syn, "a": val, "t": 0, "_lab": lab, "_fn": fn})
+                code.append({"op": l["mn"], "syn": syn, "a": val, "t": 0, "p": 1 if l.get("prot") else 0, "_lab": lab, "_fn": fn})
             elif k == "a":
                 m = _INL.match(l["text"])
                 if m and len(m.group(1)) == 3:
